@@ -80,7 +80,7 @@ REG.add(Contract(f"{NG}._add_edges_within_module_hierarchy", module=M_NX, kind="
                  loops={0: dict(sig="for parent in parent_modules", ordered=True, invariant=_AEH_NODES_ONLY),
                         1: dict(sig="for (parent, child) in zip(all_modules[:-1], all_modules[1:])",
                                 invariant=[e.replace("%KN%", "len(parent_modules)").replace("%K%", "idx").replace("%XS%", "all_modules") for e in _AEH_STATE])},
-                 properties=["C02", "C04", "C09", "C13"]))
+                 properties=["C02", "C04", "C09", "C13", "C15"]))
 
 # ---------------------------------------------------------------- _add_all_modules_as_nodes (default view)
 # get_parent_modules is known here by its proved Bag contract (element set = strict dotted ancestors); the ORDER of that list is not (a Seq-valued
@@ -120,7 +120,7 @@ _AAM = [
 REG.add(Contract(f"{NG}._add_all_modules_as_nodes", module=M_NX, kind="method", params=dict(self=NG), returns="None", modifies=["self"], opaque=["aeh_lower"],
                  ensures=[e.replace("%M%", "old(self)._all_modules") for e in _AAM],
                  loops={0: dict(sig="for module in self._all_modules", invariant=[e.replace("%M%", "seen") for e in _AAM])},
-                 properties=["C02", "C04", "C09", "C13"]))
+                 properties=["C02", "C04", "C09", "C13", "C15"]))
 
 # ---------------------------------------------------------------- _initialise (default view)
 # Import records with opaque names: the interface of eval_structure.types.Import as far as the constructor uses it (abstract; implemented by
@@ -183,7 +183,7 @@ REG.add(Contract(f"{NG}._initialise", module=M_NX, kind="method", params=dict(se
                  ghost_at={"self._add_edges_within_module_hierarchy(": [_UPPER[1], _UPPER[3], _UPPER[4], _UPPER[5]]},
                  loops={0: dict(sig="for imp in self._imports", invariant=_FRAME + _UPPER + [e.replace("%I%", "seen") for e in _EXACT]),
                         1: dict(sig="for (parent, child) in zip(all_importee_modules[:-1], all_importee_modules[1:])", invariant=_INNER)},
-                 properties=["C02", "C04", "C09", "C13"]))
+                 properties=["C02", "C04", "C09", "C13", "C15"]))
 
 # ---------------------------------------------------------------- __init__: the graph of a freshly constructed NetworkxGraph
 REG.add(Contract("networkx.DiGraph", status="assumed", params=dict(), returns="DiGraph",
@@ -210,7 +210,7 @@ REG.add(Contract(f"{NG}.__init__", module=M_NX, kind="method",
                      "forall(Opaque[ImportN], lambda i: implies((i in imports) and flat(level_limit, impn_importer(i)) != flat(level_limit, impn_importee(i)) and "
                      "chain_node(level_limit, all_modules, flat(level_limit, impn_importer(i))) and chain_node(level_limit, all_modules, flat(level_limit, impn_importee(i))), "
                      f"(flat(level_limit, impn_importer(i)), flat(level_limit, impn_importee(i))) in {_G}.edges))"],
-                 properties=["C02", "C04", "C09", "C13"]))
+                 properties=["C02", "C04", "C09", "C13", "C15"]))
 
 # ---------------------------------------------------------------- the Import classes themselves (string view): eval_structure/types.py, file_import/import_types.py
 # The REAL classes as mutable records. What the record interfaces 'Import.*' (c_filters.py, over the Imp datatype) and 'ImportN.*' (above) state abstractly is
